@@ -21,6 +21,8 @@ func All() map[string]orch.Property {
 		&C07{},
 		&C10{},
 		&C11{},
+		&C16{},
+		&C18{},
 	} {
 		m[p.ID()] = p
 	}
